@@ -118,7 +118,9 @@ impl Monitor for C04 {
         let dc = DataCfg::random(rng, t.schema.cols.len(), false);
         let n = 5 + rng.below(36);
         let lines = std_lines(rng, &t, n, &dc);
-        let sel = gen_aggregate(rng, &t.schema, &AggCfg::default());
+        let mut sel = gen_aggregate(rng, &t.schema, &AggCfg::default());
+        // DISTINCT over the result table: rows repeat when the keys are not shown
+        if rng.chance(1, 6) { sel.distinct = true; if rng.chance(1, 2) { let keys = sel.group_by.clone().unwrap_or_default(); sel.projs.retain(|(e, _)| !keys.contains(e)); if sel.projs.is_empty() { sel.projs.push((E::Agg("count".into(), false, vec![E::Star]), None)); } } }
         json!({"tables": t.spec.text(), "stmt": sel.text(Paren::Full), "lines": lines})
     }
 
@@ -140,6 +142,15 @@ impl Monitor for C04 {
                 };
             }
         };
+        // DISTINCT: duplicates of earlier result rows are removed - decidable when every cell is a single value
+        let exp = if agg.distinct {
+            if exp.iter().any(|g| g.keep == Keep::Maybe || (g.keep == Keep::Yes && g.cells.iter().any(|c| !c.singleton_value()))) { return Verdict::Inconclusive("distinct-over-ambiguous-cells".into()); }
+            let mut seen: Vec<Vec<RV>> = Vec::new();
+            let mut out = Vec::new();
+            for mut g in exp { if g.keep == Keep::Yes { let row: Vec<RV> = g.cells.iter().map(|c| c.vals[0].clone()).collect(); if seen.iter().any(|s| tuple_eq(s, &row) || s.iter().zip(row.iter()).all(|(a, b2)| a.same(b2, 1e-9))) { g.keep = Keep::No; } else { seen.push(row); } } out.push(g); }
+            obs.hit("distinct");
+            out
+        } else { exp };
         let ngroups = exp.len();
         let real_aggs = agg.aggregates.iter().filter(|a| !matches!(a.aggregate, Aggregate::GroupKey(_))).count();
         let any_all_null = exp.iter().any(|g| g.situations.iter().any(|s| *s == "all-null"));
